@@ -39,10 +39,10 @@ if kind == 'c11':
     if N and N < len(cases): cases = rnd.sample(cases, N)
     for q, d in cases: emit(q, d)
 elif kind == 'c04':
-    U = [None, True, False, 0, 1, -1, 2, 1.0, 0.5, -0.5, 2.0**-60, 100, 100.0, 1e19, 9.5e18, -1e19, 9007199254740992, 4503599627370497, '', 'a', 'b', 'ab', 'A', 'é', '𝄞', '￿', '1',
+    U = [None, True, False, 0, 0.0, -0.0, 1, -1, 2, 1.0, 0.5, -0.5, 2.0**-60, 100, 100.0, 1e19, 9.5e18, -1e19, 9007199254740992, 4503599627370497, '', 'a', 'b', 'ab', 'A', 'é', '𝄞', '￿', '1',
          [], [1], [1.0], [1, 2], [[1]], [[1.0]], {}, {"a": 1}, {"a": 1.0}, {"a": 1, "b": 2}, {"b": 2, "a": 1}, {"a": [1]}, {"a": [1.0]}]
     OPS = ['==', '!=', '<', '<=', '>', '>=']
-    LITS = ['null', 'true', 'false', '0', '1', '-1', '2', '1.0', '0.5', '-0.5', '1e2', '100', '100.0', '1e19', '-1e19', '9.5e18', '1.0e19', '9007199254740992.0', "''", "'a'", '"a"', "'b'", "'ab'", "'A'", "'é'", "'1'"]
+    LITS = ['null', 'true', 'false', '0', '-0', '0.0', '-0.0', '1', '-1', '2', '1.0', '0.5', '-0.5', '1e2', '100', '100.0', '1e19', '-1e19', '9.5e18', '1.0e19', '9007199254740992.0', "''", "'a'", '"a"', "'b'", "'ab'", "'A'", "'é'", "'1'"]
     cases = []
     for x in U:
         for y in U:
@@ -81,7 +81,7 @@ elif kind == 'c05':
         emit(q, doc)
 elif kind == 'c14':
     VALS = [1, 1.0, 'a', 'b', None, True, [1], [1.0], {"k": 1}, [], {}]
-    ARRS = [[], [1], [1, 'a'], ['a', 'b'], [[1]], [None], [1.0], [{"k": 1}], [[], {}], 5, 'x', None, {}]
+    ARRS = [[], [1], [1, 'a'], ['a', 'b'], [[1]], [None], [1.0], [{"k": 1}], [[], {}], 5, 'x', None, {}, [1, 1], ['a', 'a', 'b', 'a'], [1, 1, 1, 1], [[1], [1]], [None, None], ['b', 'a', 'b']]
     for _ in range(N):
         fn = rnd.choice(['in', 'nin', 'any_of', 'none_of', 'subset_of'])
         elems = [rnd.choice(VALS + ARRS) for _ in range(rnd.choice([1, 2, 3, 4]))]
@@ -111,13 +111,14 @@ if kind == 'c13':
     NAMES = ['a', 'b', 'ab', 'c1', '_x', 'é']
     def ws(): return rnd.choice(['', '', ' ', '\t', '\n', '\r', '  '])
     def num_spell(v):  # v in small ints
+        if v == 0: return rnd.choice(['0', '-0', '0.0', '-0.0', '0e0', '-0e0', '0.00', '-0.0E+0', '0E-0'])
         return rnd.choice([str(v), f"{v}.0", f"{v}e0", f"{v}E0", f"{v*10}e-1", f"{v}.00"]) if v >= 0 else rnd.choice([str(v), f"{v}.0", f"{v}e0"])
     def name_sel(n, bracket_only=False):
         forms = [f"'{n}'", f'"{n}"']
         return rnd.choice(forms)
     def abstract_atom(d):
         r = rnd.random()
-        if r < 0.35: return ('cmp', ('sq', rnd.choice(['@', '$']), [rnd.choice(NAMES[:3]) for _ in range(rnd.choice([0, 1, 2]))]), rnd.choice(['==', '!=', '<', '<=', '>', '>=']), ('num', rnd.choice([0, 1, 2, -1])))
+        if r < 0.35: return ('cmp', ('sq', rnd.choice(['@', '$']), [rnd.choice(NAMES[:3]) for _ in range(rnd.choice([0, 1, 2]))]), rnd.choice(['==', '!=', '<', '<=', '>', '>=']), ('num', rnd.choice([0, 0, 1, 2, -1])))
         if r < 0.6: return ('test', rnd.random() < 0.3, abstract_query(d + 1, True))
         if r < 0.8 and d < 2: return ('paren', rnd.random() < 0.3, abstract_logical(d + 1))
         return ('cmp', ('sq', '@', [rnd.choice(NAMES[:3])]), '==', ('str', rnd.choice(['a', 'b', 'x y'])))
@@ -170,7 +171,7 @@ if kind == 'c13':
             elif len(sels) == 1 and sels[0][0] == 'wild' and rnd.random() < 0.5: s += ('..' if desc else '.') + '*'
             else: s += ('..' if desc else '') + '[' + ws() + (ws() + ',' + ws()).join(r_sel(x) for x in sels) + ws() + ']'
         return s
-    SC = [None, True, 0, 1, 2, -1, 1.0, 'a', 'b', 'x y']
+    SC = [None, True, 0, 0.0, 1, 2, -1, 1.0, 'a', 'b', 'x y']
     def doc(depth=0):
         r = rnd.random()
         if depth >= 3 or r < 0.3: return rnd.choice(SC)
